@@ -154,3 +154,23 @@ Proof.
   cbv zeta. eexists _, _, _, _. split; [vm_compute; reflexivity|]. split; [vm_compute; reflexivity|].
   split; [vm_compute; reflexivity|]. split; [vm_compute; reflexivity|]. split; vm_compute; reflexivity.
 Qed.
+
+(** bytestream-tcp: a caller message whose buffers have zero total capacity makes the inner loop of component_io_cb
+    (agent.c:6339-6376) spin: every call "succeeds" with 0 bytes, nothing is consumed, the buffer list never shrinks.
+    In the model the loop runs out of any fuel; on the real code nice_agent_recv_messages never returns (reproduced). *)
+Definition spin_s : rst := {| r_buf := [0; 2; 65; 66]; r_fo := 0; r_fs := 4; r_cs := 0; r_wake := true |}.
+Definition spin_k : kern := {| pend := []; script := [] |}.
+Definition zero_msg : imsg := {| m_bufs := [[]]; m_len := 0 |}.
+
+Lemma spin_step : recv_unlocked true ctl1 true spin_s spin_k zero_msg = Some (RSuccess, spin_s, spin_k, zero_msg).
+Proof. vm_compute. reflexivity. Qed.
+
+Theorem bytestream_zero_capacity_spins : forall fuel acc,
+  rel_inner true ctl1 true fuel spin_s spin_k (m_bufs zero_msg) acc = None.
+Proof.
+  induction fuel as [|f IH]; intros acc; [reflexivity|].
+  cbn [rel_inner]. change {| m_bufs := m_bufs zero_msg; m_len := 0 |} with zero_msg. rewrite spin_step.
+  cbn [negb]. change (valid_bytes zero_msg) with (@nil Z). rewrite app_nil_r.
+  change (advance_bufs (m_bufs zero_msg) (m_len zero_msg)) with (m_bufs zero_msg).
+  change (Nat.ltb 0 (length (m_bufs zero_msg))) with true. cbn iota. apply IH.
+Qed.
